@@ -939,11 +939,13 @@ func rangeEqual(x, y rangeValue) bool {
 }
 
 func (r rangeValue) contains(x Int) bool {
-	x32, err := AsInt32(x)
-	if err != nil {
+	// The bounds of a range are Go ints, so a value that
+	// does not fit in an int cannot be an element.
+	var xi int
+	if err := AsInt(x, &xi); err != nil {
 		return false // out of range
 	}
-	delta := x32 - r.start
+	delta := xi - r.start
 	quo, rem := delta/r.step, delta%r.step
 	return rem == 0 && 0 <= quo && quo < r.len
 }
